@@ -309,6 +309,29 @@ fn run(line: &str) -> String {
             let vi = VoronoiIntegrator::build(&[], None, anchor, width, dim, false);
             format!("{} {} {} {}", fv(v.anchor()), fv(v.width()), fv(vi.vh_anchor()), fv(vi.vh_width()))
         }
+        "space_cells" => {
+            // space_cells anchor width max_cell_width -> cdim, then per cell: loc width
+            let sp = vh::space::SpaceHook::new(a.v(), a.v(), a.f());
+            let cd = sp.cdim();
+            let mut out = format!("{} {} {} {}", cd[0], cd[1], cd[2], sp.cell_count());
+            for c in 0..sp.cell_count() {
+                out += &format!(" {} {}", fv(sp.cell_loc(c)), fv(sp.cell_width(c)));
+            }
+            out
+        }
+        "space_knn" => {
+            // space_knn anchor width max_cell_width k n locs..
+            let mut sp = vh::space::SpaceHook::new(a.v(), a.v(), a.f());
+            let k = a.u();
+            let n = a.u();
+            let pts: Vec<DVec3> = (0..n).map(|_| a.v()).collect();
+            sp.add_parts(&pts);
+            let nn = sp.knn(k);
+            nn.iter()
+                .map(|l| l.iter().map(|x| x.to_string()).collect::<Vec<_>>().join(","))
+                .collect::<Vec<_>>()
+                .join(" ")
+        }
         _ => panic!("unknown command {}", cmd),
     }
 }
